@@ -33,7 +33,20 @@ end Aux
 /-- the method binding is in place in the extracted tree: AAD, mint, open, both cache writes, the check -/
 theorem binding_in_place :
     Token.methodBound = true ∧ Token.methodBindingPartial = false ∧ Token.callAadHasMethod = true ∧
+    Token.callAadMethodWidth = 0 ∧
     Token.methodBindingParts.all (·.2) = true := by decide
+
+/-- **the call AAD binds the whole method name**: in the extracted layout (`method.encode() + sep`, nothing truncated
+    or padded) two call AADs are equal only for the same method *and* the same identity — whatever the length of the
+    names, whether one is a prefix of the other, ASCII or not (NUL-free names, i.e. identifiers) -/
+theorem C13_call_aad_binds_method (m m' : List Char) (i j : Identity) (hm : NulFree m) (hm' : NulFree m')
+    (hi : i.NulFreeDomain) (hj : j.NulFreeDomain)
+    (h : callAad Shape.extracted.methodBound m i = callAad Shape.extracted.methodBound m' j) : m = m' ∧ i = j :=
+  callAad_inj_bound hm hm' hi hj h
+
+example : callAad true ("gen".toList) .anonymous ≠ callAad true ("gena".toList) .anonymous := by decide
+example : callAad true (List.replicate 40 'a' ++ ['1']) .anonymous ≠ callAad true (List.replicate 40 'a' ++ ['2']) .anonymous := by
+  decide
 
 /-- the streams of a history as the spec sees them: per `/init`, the texts of its call token and of every cursor
     carrying its call id -/
